@@ -198,7 +198,9 @@ def run(run: Run) -> None:
         us.append(("games", 4, g4[i:i + 256]))
     # additive members and nearly additive games
     addg = [(f"additive{a}", tuple(float(sum(a[i] for i in range(n) if s >> i & 1)) for s in range(1 << n)))
-            for n in (3, 4) for a in ((1, -1, 2, 0), (0, 0, 0, 0), (0.1, 0.2, 0.3, 0.7), (1e-3, 1e5, 3.3, -7.7))]
+            for n in (3, 4) for a in ((1, -1, 2, 0), (0, 0, 0, 0), (0.1, 0.2, 0.3, 0.7), (1e-3, 1e5, 3.3, -7.7),
+                      # singleton weights that cancel: v(N) itself is only a rounding residue
+                      (0.1, 0.2, -0.3, 0.0), (0.1, 0.2, 0.3, -0.6), (1.1, -2.2, 1.1, 0.0), (1e8 + 0.1, -1e8, -0.1, 0.0), (0.7, -0.1, -0.6, 1e-9))]
     us.append(("games", 3, [(t, v) for t, v in addg if len(v) == 8]))
     us.append(("games", 4, [(t, v) for t, v in addg if len(v) == 16]))
     na3 = list(nearly_additive(3))
